@@ -37,8 +37,9 @@ type world struct {
 	// dial fault state (A-B pair), consumed by the DialFault hook
 	failLeft    map[string]int // dialing node name -> attempts still to fail
 	resetOnDial bool
-	resetOnDial0 bool
 	dialsAB     int
+
+	born map[int]time.Duration // link id -> simulated instant of its creation
 
 	tun tunnelState
 }
@@ -59,10 +60,17 @@ func ensureListener(nd *Node) (string, string) {
 }
 
 func drawWorld() *world {
-	w := &world{failLeft: map[string]int{}}
+	w := &world{failLeft: map[string]int{}, born: map[int]time.Duration{}}
 	w.n = 2 + simrt.Choose(3, "n")
 	w.m = NewMesh(w.n, "chain")
 	m := w.m
+	prevOnLink := m.Net.OnLink
+	m.Net.OnLink = func(l *simnet.Link) {
+		if prevOnLink != nil {
+			prevOnLink(l)
+		}
+		w.born[l.ID] = simrt.Elapsed()
+	}
 	w.exit = w.n - 1
 	w.iv = []time.Duration{5 * time.Second, 20 * time.Second}[simrt.Choose(2, "advint")]
 	w.ttl = 5 * w.iv
@@ -175,13 +183,20 @@ func (w *world) installDialHook() {
 			return errors.New("simulated dial failure")
 		}
 		if w.resetOnDial {
-			simrt.Eventf("DEBUG resetOnDial armed at dial %s->%s", from, to)
-			if l, ok := w.pairUp(nA, nB); ok {
-				w.resetOnDial = false
-				w.mon.faulted[l.ID] = true
-				simrt.Eventf("fault: reset link %d at the instant %s dials %s", l.ID, from, to)
-				simrt.Probe("c32_reset_while_duplicate_dial_in_flight")
-				l.Reset()
+			// a dial between the pair while (at least) one side still has the old
+			// connection registered: break the old link at this very instant
+			for _, c := range []*peer.Connection{w.reg(nA, nB), w.reg(nB, nA)} {
+				if c == nil || isClosed(c) {
+					continue
+				}
+				if l := linkOf(c); l != nil && !l.Dead() {
+					w.resetOnDial = false
+					w.mon.faulted[l.ID] = true
+					simrt.Eventf("fault: reset link %d at the instant %s dials %s", l.ID, from, to)
+					simrt.Probe("c32_reset_while_duplicate_dial_in_flight")
+					l.Reset()
+					break
+				}
 			}
 		}
 		return nil
@@ -224,7 +239,7 @@ func runC32() {
 	simrt.Sleep(time.Duration(1+simrt.Choose(4, "lead")) * time.Second)
 
 	for ep := 0; ep < episodes; ep++ {
-		sc := simrt.Choose(6, "scenario")
+		sc := simrt.Choose(10, "scenario")
 		simrt.Eventf("episode %d scenario %d at %v", ep, sc, simrt.Elapsed())
 		switch sc {
 		case 0:
@@ -240,6 +255,10 @@ func runC32() {
 		case 5:
 			w.scenarioRawDuplicate(ep)
 			w.scenarioReset()
+		case 6, 7:
+			w.scenarioTakeover(ep)
+		case 8, 9:
+			w.scenarioKeepaliveTakeover(ep)
 		}
 		// bounded settle; whether the pair reconnects is not C32's subject, what
 		// holds on a surviving connection is (checked continuously by the monitor)
@@ -263,9 +282,6 @@ func runC32() {
 		if w.chainUp() {
 			simrt.Probe("c32_final_state_checked")
 		}
-	}
-	if w.resetOnDial0 && w.mutual {
-		simrt.Failf("debug", "debug", "x")
 	}
 	if simrt.Chance(1, 4, "control") {
 		w.controlMarker()
@@ -309,9 +325,6 @@ func (w *world) drawDialFaults() {
 	w.failLeft[a] = simrt.Choose(4, "failA")
 	w.failLeft[b] = simrt.Choose(4, "failB")
 	w.resetOnDial = simrt.Chance(1, 3, "resetondial")
-	if w.resetOnDial {
-		w.resetOnDial0 = true
-	}
 }
 
 // (c) read error, then fast reconnect with a drawn number of failing dials
@@ -482,10 +495,172 @@ func (w *world) scenarioRawDuplicate(ep int) {
 		}
 	}
 	// the duplicate is expected to have been closed by the agent
-	if rd.link != nil && rd.link.Dead() {
+	if rd.remoteClosed {
 		simrt.Probe("c32_raw_duplicate_closed_by_agent")
 	}
 	rd.close()
+}
+
+// reconnect of an identity in the very instant its old connection breaks: the
+// genuine link is reset and, in the same simulated instant, a new connection
+// presenting the same identity completes its handshake and announces a route.
+// For the accepting agent this is an ordinary fast reconnect of that identity;
+// the harness plays the reconnecting side so that it controls the instant.
+func (w *world) scenarioTakeover(ep int) {
+	// the pair recovers after a round only if the genuine peer redials, i.e. if
+	// the target is the accepting end of the configured edge (or both dial)
+	target := w.m.Edges[0][1]
+	if simrt.Chance(1, 4, "tktarget") {
+		target = w.m.Edges[0][0]
+	}
+	claimedIdx := nA + nB - target
+	rounds := 1 + simrt.Choose(6, "tkrounds")
+	for r := 0; r < rounds; r++ {
+		l, ok := w.pairUp(nA, nB)
+		if !ok {
+			simrt.Probe("c32_fault_skipped_pair_down")
+			return
+		}
+		// keep the genuine peer from redialling while the harness holds its identity
+		w.failLeft[w.m.Nodes[claimedIdx].Name] = 1000
+		k := ep*4 + r
+		name := fmt.Sprintf("rawtk%d", k)
+		marker := [4]byte{10, 68, byte(k), 0}
+		claimed := w.m.Nodes[claimedIdx]
+		w.mon.rawClaim[name] = claimedIdx
+		w.mon.faulted[l.ID] = true
+		order := simrt.Choose(4, "tkorder")
+		simrt.Eventf("takeover: reset link %d and reconnect as %s to %s (raw %s) order=%d", l.ID, claimed.Name, w.m.Nodes[target].Name, name, order)
+		simrt.Probe("c32_reconnect_in_same_instant_as_break")
+		frames := markerFrames(claimed.ID, 20+k, marker)
+		var rd *rawDup
+		switch order {
+		case 0: // break, then dial and greet
+			l.Reset()
+			rd = w.attachDup(target, name, claimed.ID, frames, true)
+		case 1: // dial and greet while the break is being noticed
+			var g simrt.Group
+			g.Go("tk-reset", func() { l.Reset() })
+			rd = w.attachDup(target, name, claimed.ID, frames, true)
+			g.Wait()
+		default: // transport connection established shortly before; the hello travels at the instant of the break
+			rd = w.stageDup(target, name, claimed.ID)
+			simrt.Sleep(time.Duration(1+simrt.Choose(50, "tkstage")) * time.Millisecond)
+			if rd.dialErr == nil {
+				if order == 2 {
+					l.Reset()
+					w.greetDup(rd, frames, true)
+				} else {
+					var g simrt.Group
+					g.Go("tk-reset", func() { l.Reset() })
+					w.greetDup(rd, frames, true)
+					g.Wait()
+				}
+			}
+		}
+		simrt.Sleep(w.mon.period + time.Duration(100+simrt.Choose(1000, "tkhold"))*time.Millisecond)
+		if c := w.reg(target, claimedIdx); c != nil && rd.link != nil && linkOf(c) == rd.link {
+			simrt.Probe("c32_reconnected_connection_registered")
+		}
+		simrt.Eventf("takeover %s: ack=%v sent=%d link=%d; closing", name, rd.gotAck, rd.sentOK, linkID(rd.link))
+		rd.close()
+		w.failLeft[w.m.Nodes[claimedIdx].Name] = 0
+		if r+1 < rounds && !w.waitPairUp(w.settleBound()) {
+			return
+		}
+	}
+}
+
+// (b) keepalive teardown before any read error, with a reconnect of the same
+// identity in that very instant. The agent X is made blind (the direction
+// toward it is stalled with bytes in flight) and mute (the direction away from
+// it is broken), so its keepalive loop is the first to notice, at its next
+// tick, while its read loop is still blocked; the read loop reports the same
+// connection a second time once the local close wakes it. At the predicted tick
+// instant a new connection presenting the peer's identity says hello.
+func (w *world) scenarioKeepaliveTakeover(ep int) {
+	if w.kjit != 0 {
+		// tick instants are not predictable with jitter
+		w.scenarioTakeover(ep)
+		return
+	}
+	x := w.m.Edges[0][1]
+	if simrt.Chance(1, 4, "kttarget") {
+		x = w.m.Edges[0][0]
+	}
+	p := nA + nB - x
+	l, ok := w.pairUp(nA, nB)
+	if !ok {
+		simrt.Probe("c32_fault_skipped_pair_down")
+		return
+	}
+	cx := w.reg(x, p)
+	born, known := w.born[l.ID]
+	if !known {
+		return
+	}
+	toward, away := 0, 1 // dir 0 is dialer->acceptor
+	if l.DialNode == w.m.Nodes[x].Name {
+		toward, away = 1, 0
+	}
+	w.mon.faulted[l.ID] = true
+	w.mon.stalled[l.ID] = true
+	w.failLeft[w.m.Nodes[p].Name] = 1000
+	w.failLeft[w.m.Nodes[x].Name] = 1000
+	l.Stall(toward)
+	simrt.Eventf("fault: stall link %d toward %s, waiting for bytes in flight", l.ID, w.m.Nodes[x].Name)
+	deadline := simrt.Elapsed() + w.idle + w.iv + time.Second
+	for l.H[toward].Buffered() == 0 && simrt.Elapsed() < deadline {
+		simrt.Sleep(50 * time.Millisecond)
+	}
+	if l.H[toward].Buffered() == 0 || isClosed(cx) {
+		simrt.Probe("c32_keepalive_scenario_abandoned")
+		l.Reset()
+		w.failLeft = map[string]int{}
+		return
+	}
+	simrt.Eventf("fault: break link %d away from %s", l.ID, w.m.Nodes[x].Name)
+	l.H[away].ResetWith(simnet.ErrReset)
+	simrt.Probe("c32_link_blind_and_mute")
+	// next keepalive tick of x on this connection
+	now := simrt.Elapsed()
+	k := (now-born)/w.idle + 1
+	tick := born + k*w.idle
+	if tick-now < 20*time.Millisecond {
+		tick += w.idle
+	}
+	name := fmt.Sprintf("rawkt%d", ep)
+	marker := [4]byte{10, 68, byte(100 + ep), 0}
+	claimed := w.m.Nodes[p]
+	w.mon.rawClaim[name] = p
+	simrt.Sleep(tick - now - time.Duration(1+simrt.Choose(10, "ktstage"))*time.Millisecond)
+	if isClosed(cx) {
+		simrt.Probe("c32_keepalive_scenario_abandoned")
+		l.Reset()
+		w.failLeft = map[string]int{}
+		return
+	}
+	rd := w.stageDup(x, name, claimed.ID)
+	if d := tick - simrt.Elapsed(); d > 0 {
+		simrt.Sleep(d)
+	}
+	simrt.Eventf("keepalive tick of %s on link %d expected now; reconnecting as %s (raw %s)", w.m.Nodes[x].Name, l.ID, claimed.Name, name)
+	if rd.dialErr == nil {
+		w.greetDup(rd, markerFrames(claimed.ID, 60+ep, marker), true)
+	}
+	simrt.Sleep(time.Millisecond)
+	if isClosed(cx) {
+		simrt.Probe("c32_keepalive_teardown_before_read_error")
+		simrt.Probe("c32_keepalive_teardown_at_predicted_tick")
+	}
+	simrt.Sleep(w.mon.period + time.Duration(100+simrt.Choose(1000, "kthold"))*time.Millisecond)
+	if c := w.reg(x, p); c != nil && rd.link != nil && linkOf(c) == rd.link {
+		simrt.Probe("c32_reconnected_at_keepalive_teardown_registered")
+	}
+	simrt.Eventf("keepalive takeover %s: ack=%v sent=%d link=%d; closing", name, rd.gotAck, rd.sentOK, linkID(rd.link))
+	rd.close()
+	l.Reset()
+	w.failLeft = map[string]int{}
 }
 
 // controlMarker shows that the marker announcement used by the raw duplicates
@@ -569,10 +744,11 @@ func (w *world) startTunnel() {
 			c, err := w.m.Nodes[nA].A.DialContext(ctx, "tcp", w.dest)
 			cancel()
 			if err != nil {
+				// no second attempt: a half-opened tunnel may have left state
+				// behind under its stream id (see the caveat above)
 				simrt.Eventf("tunnel open failed: %v", err)
 				simrt.Probe("c32_tunnel_open_failed")
-				simrt.Sleep(3 * time.Second)
-				continue
+				return
 			}
 			w.tun.opens++
 			simrt.Eventf("tunnel %d open at %v", w.tun.opens, simrt.Elapsed())
